@@ -20,7 +20,11 @@ MediaNoLossOK(status, stored) == status = 200 => stored
 \* are accepted (200) ...
 RegisteredOK(initOK, ch, trk, status) == <<ch, trk>> \in initOK => status = 200
 \* ... and handed to a channel that knows the track (complete `process` event with a buffer for the track).
-ProcessedOK(mediaOK, processed) == mediaOK \subseteq processed
+\* (counted per track: the channel goroutine reports the OUTGOING number, which differs from the upload's index
+\* when the channel renumbers)
+PerTrack(S, ch, trk) == Cardinality({x \in S : x[1] = ch /\ x[2] = trk})
+ProcessedOK(mediaOK, processed) == \A m \in mediaOK : PerTrack(mediaOK, m[1], m[2]) <= PerTrack(processed, m[1], m[2])
+Unprocessed(mediaOK, processed) == {<<m[1], m[2]>> : m \in {x \in mediaOK : PerTrack(mediaOK, x[1], x[2]) > PerTrack(processed, x[1], x[2])}}
 
 \* C19.linearizable: final stored files and MPD equal those of SOME sequential order of the same uploads.
 \* The MPD is compared modulo AdaptationSet ids and order and modulo the order of Representations:
@@ -28,11 +32,28 @@ ProcessedOK(mediaOK, processed) == mediaOK \subseteq processed
 NormAS(a) == [ct |-> a.ct, lang |-> a.lang, mime |-> a.mime, ts |-> a.ts, roles |-> Range(a.roles), reps |-> Range(a.reps)]
 NormMPD(m) == {NormAS(m[i]) : i \in DOMAIN m}
 \* duplicates must not get lost by the normalisation: the numbers of AdaptationSets and Representations are part
-\* of the outcome
-Outcome(files, hasmpd, m) == [files |-> Range(files), hasmpd |-> hasmpd, mpd |-> NormMPD(m),
-                              nas |-> Len(m), nreps |-> Cardinality(UNION {Range(m[i].reps) : i \in DOMAIN m}),
-                              nrepsRaw |-> LET RECURSIVE Sum(_) Sum(i) == IF i = 0 THEN 0 ELSE Len(m[i].reps) + Sum(i - 1) IN Sum(Len(m))]
+\* of the outcome.  The timeline MPD (manifest_timeline_nr.mpd) is part of the outcome too: per AdaptationSet the
+\* set of Representation ids and the numbers its SegmentTimeline covers.
+NormTL(tl) == {[reps |-> Range(tl[i].reps), sn |-> tl[i].sn, nseg |-> tl[i].nseg] : i \in DOMAIN tl}
+Outcome(files, hasmpd, m, hastl, tl) ==
+   [files |-> Range(files), hasmpd |-> hasmpd, mpd |-> NormMPD(m),
+    nas |-> Len(m), nreps |-> Cardinality(UNION {Range(m[i].reps) : i \in DOMAIN m}),
+    nrepsRaw |-> LET RECURSIVE Sum(_) Sum(i) == IF i = 0 THEN 0 ELSE Len(m[i].reps) + Sum(i - 1) IN Sum(Len(m)),
+    hastl |-> hastl, tl |-> NormTL(tl), ntl |-> Len(tl)]
 Linearizable(o, refs) == o \in refs
 FilesEqualSome(o, refs) == \E r \in refs : r.files = o.files
 MPDEqualSome(o, refs) == \E r \in refs : r.hasmpd = o.hasmpd /\ r.mpd = o.mpd /\ r.nas = o.nas /\ r.nrepsRaw = o.nrepsRaw
+TLEqualSome(o, refs) == \E r \in refs : r.hastl = o.hastl /\ r.tl = o.tl /\ r.ntl = o.ntl
+
+\* C19.isolated: channels that share a storage directory do not disturb each other: a channel's manifest.mpd and
+\* manifest_timeline_nr.mpd exist (once they are due), describe representations of that channel only, and the
+\* timeline ends at the channel's newest complete number (newest < 0: not known by construction, not demanded).
+IdsOfTL(tl) == UNION {Range(tl[i].reps) : i \in DOMAIN tl}
+\* ids, own: SETS of representation ids
+Isolated(needmpd, hasmpd, ids, needtl, hastl, tl, own, newest) ==
+   /\ needmpd => hasmpd
+   /\ hasmpd => (ids # {} /\ ids \subseteq own)
+   /\ needtl => hastl
+   /\ hastl => (IdsOfTL(tl) # {} /\ IdsOfTL(tl) \subseteq own)
+   /\ (needtl /\ hastl /\ newest >= 0) => \A i \in DOMAIN tl : tl[i].end = newest
 =============================================================================
